@@ -41,4 +41,7 @@ CHECKS['C10'] = {'technique': MS + '; symbolic instruction lists up to a stated 
 CHECKS['C11'] = {'technique': MS + '; handler-mode trace queries', 'engine': 'mirsym',
     'text': 'Bounded symbolic verification: check_flashloan_can_start with a fully symbolic named instruction (index order, not-CPI x2, program id, discriminator, target account, flag exclusions); end_flashloan clears the flag before the full initial-margin check and propagates its error; RiskEngine::new refuses flagged accounts; check_account_init_health skips only for the flag; bankruptcy / start-liquidation constraints exclude flagged accounts.',
     'note': _H + ' The sysvar byte parser is trusted; short data (< 8 bytes) panics (fail closed).'}
+CHECKS['C19'] = {'technique': MS + '; handler-mode trace queries', 'engine': 'mirsym',
+    'text': 'Bounded symbolic verification: collect_bank_fees in handler mode (three transfers, routes liquidity vault -> insurance vault / fee vault / global fee wallet ATA, amounts = int(min(bucket, remaining liquidity)) in order, buckets fall by the same amounts, ATA check present); claim_emissions / settle (cap by remaining, conservation, flag gating, write set); calc_emissions never above the exact formula; admin-only drains are part of C08.b.',
+    'note': _H}
 NOT_APPLICABLE = {}
